@@ -677,6 +677,73 @@ fn chain_of(e: &(dyn std::error::Error + 'static)) -> Vec<String> {
     out
 }
 
+/// draws one word, returns (input, word); fails at its k-th call
+struct Draw(Rc<std::cell::Cell<usize>>, usize);
+impl Composable for Draw {}
+impl Operator<u64> for Draw {
+    type Output = (u64, u64);
+    type Error = LeafErr;
+    fn apply<R: Rng + ?Sized>(&self, x: u64, rng: &mut R) -> Result<(u64, u64), LeafErr> {
+        let w = rng.next_u64();
+        let k = self.0.get();
+        self.0.set(k + 1);
+        if k == self.1 {
+            Err(LeafErr(format!("application {k} failed")))
+        } else {
+            Ok((x, w))
+        }
+    }
+}
+
+/// `apply_n_times::<N>()` for larger N than the composition trees use: N results, each made from a copy of the
+/// input, the words drawn left to right; a failure at application j stops after exactly j + 1 applications.
+fn repeats(run: &mut Run) -> u64 {
+    let mut n = 0u64;
+    macro_rules! rep {
+        ($($N:literal),*) => {$(
+            for fail in [usize::MAX, 0, $N / 2, $N - 1] {
+                if fail != usize::MAX && fail >= $N {
+                    continue;
+                }
+                n += 1;
+                let counter = Rc::new(std::cell::Cell::new(0usize));
+                let op = Draw(counter.clone(), fail);
+                let mut rng = TapeRng::default();
+                let r = mcx::guarded(|| op.apply_n_times::<$N>().apply(7u64, &mut rng));
+                let calls = counter.get();
+                let what = match r {
+                    Err(p) => Some(format!("panicked: {p}")),
+                    Ok(Ok(out)) => {
+                        if fail != usize::MAX {
+                            Some(format!("succeeded although application {fail} fails"))
+                        } else if out.len() != $N || out.iter().enumerate().any(|(i, (x, w))| *x != 7 || *w != i as u64 + 1) {
+                            Some(format!("the results are not (input, i-th word) for i = 1..={}: first entries {:?}", $N, &out[..out.len().min(4)]))
+                        } else if calls != $N || rng.pos != $N as u64 {
+                            Some(format!("{calls} applications, {} words drawn", rng.pos))
+                        } else {
+                            None
+                        }
+                    }
+                    Ok(Err(e)) => {
+                        if fail == usize::MAX {
+                            Some(format!("failed with {e}"))
+                        } else if e.0 != format!("application {fail} failed") || calls != fail + 1 || rng.pos != fail as u64 + 1 {
+                            Some(format!("error {e:?} after {calls} applications and {} words; application {fail} fails, so {} applications and words are due", rng.pos, fail + 1))
+                        } else {
+                            None
+                        }
+                    }
+                };
+                if let Some(w) = what {
+                    run.violation(format!("compose/repeat/{}", $N), format!("apply_n_times::<{}>() with failing application {}: {w}", $N, if fail == usize::MAX { "none".to_string() } else { fail.to_string() }), json!({"check":"C14","scenario":"repeat"}));
+                }
+            }
+        )*};
+    }
+    rep!(1, 2, 3, 4, 7, 8, 15, 16, 17, 31, 32, 33, 63, 64, 65, 100, 255, 256, 257, 1000);
+    n
+}
+
 /// For compositions whose failing part sits at nesting depth d: the chain of `source()` from the reported
 /// error has d + 1 links and ends at the failing part's own error; every link has a non-empty message; the
 /// same through `Box<dyn Error>`.
@@ -830,7 +897,7 @@ pub fn run(run: &mut Run) {
     for (k, w, r) in viols {
         run.violation(k, w, r);
     }
-    let w = wrappers(run) + error_chains(run);
+    let w = wrappers(run) + error_chains(run) + repeats(run);
     run.states = ts.len() as u64;
     run.evaluations = total_plans + w;
     run.transitions = run.evaluations;
@@ -895,9 +962,10 @@ pub fn replay(v: &Value) -> bool {
         println!("wrapper checks: {n} violations");
         return n == 0;
     }
-    if v["scenario"] == json!("error-chain") {
+    if v["scenario"] == json!("error-chain") || v["scenario"] == json!("repeat") {
         let mut r = Run::new("C14", "quick");
         error_chains(&mut r);
+        repeats(&mut r);
         let g = r.violations.lock().unwrap();
         for (k, x) in g.iter() {
             println!("MISMATCH [{k}]: {}", x.what);
